@@ -140,7 +140,7 @@ def run(pid, spec, tier, seed, wd, only, rebase, t_start):
                 repl.append(name)
         job = D.Job(workdir=wd, jobname=js['name'], filebase=fname, cfile=cfile, entry=entry, enforce=enforce, replace=repl,
                     loop_contracts=js.get('loop_contracts', False), unwind_first=js.get('unwind_first'),
-                    cbmc_flags=js.get('cbmc_flags', []), defines=defines, timeout=js.get('timeout', 600), spec=js)
+                    cbmc_flags=js.get('cbmc_flags', []), defines=defines, timeout=js.get('timeout', 600), spec=js, known=set(sigs))
         built.append(job)
     with ThreadPoolExecutor(max_workers=int(os.environ.get('VERIF_JOBS', '16'))) as ex:
         results = list(ex.map(D.run_job, built))
